@@ -16,6 +16,15 @@ CLAIMED = {
         "MxKxM intrinsic specialisations (2,3,4,8) are covered by value runs only.",
    technique="Lean 4 proof of an executable kernel model + symbolic-scalar correspondence with the real templates",
    design="§4 C01"),
+ "C17": dict(
+   text="Machine-checked proof (Lean 4): the model of _tmatmul (base and masked variants, the k-range clipping find_kfirst/find_klast per tile, "
+        "all nine tag pairs) leaves the FULL sum_k a(i,k)b(k,j) in every cell when the operands vanish outside their tagged triangles, and writes "
+        "nothing else — for all M,K,N (trapezoidal included), all widths and unroll factors (theorems Fastor.C17.tmatmul_exact and "
+        "krange_sufficient_all). Tied to /repo by running the real _tmatmul over the symbolic scalar (literal zeros outside the triangle) and "
+        "comparing values, store order and the clipped read sets with the model; plus exact integer runs on float/double/int32/int64 per ISA.",
+   note="Trusted: Lean kernel + standard axioms; the hand-written model tied by this run's correspondence box; harness carriers; g++/CPU.",
+   technique="Lean 4 proof of an executable kernel model + symbolic-scalar correspondence with the real templates",
+   design="§4 C17"),
 }
 
 NOT_YET = {}
